@@ -24,7 +24,7 @@ def demo13 : Spec :=
     created := #[0, 0, 0, 0, 0, 0, 0, 0] }
 
 set_option maxRecDepth 8192 in
-example : WellFormed demo13 id := ⟨⟨by decide, by decide⟩, by decide, by decide⟩
+example : WellFormed demo13 id := ⟨⟨by decide, by decide, by decide⟩, by decide, by decide⟩
 
 /-- `0, 1, 2 = csink`, `3 = liftn [0, 1, 2]`, `4 = cloop` closed to `3`, `5 = switchc 0 [1, 3]`,
     `6 = mapc 5` -/
@@ -37,7 +37,7 @@ set_option maxRecDepth 8192 in
 example : WellFormed demo13b id ∧ (∀ j, j < 7 → demo13b.stored.get j = none) ∧
     demo13b.getDef 3 = .liftn [0, 1, 2] ∧ demo13b.getDef 4 = .cloop ∧ demo13b.loopTo.get 4 = some 3 ∧
     demo13b.getDef 5 = .switchc 0 [1, 3] ∧ demo13b.getDef 6 = .mapc 5 1 :=
-  ⟨⟨⟨by decide, by decide⟩, by decide, by decide⟩, by decide⟩
+  ⟨⟨⟨by decide, by decide, by decide⟩, by decide, by decide⟩, by decide⟩
 
 /-! ### every cell is delayed state -/
 
